@@ -15,7 +15,7 @@ def main():
     with open(inf) as f, open(outf, "w") as out:
         for line in f:
             case = json.loads(line)
-            evs = drv.replay(case)
+            evs = case["recorded"] if "recorded" in case else drv.replay(case)
             for k, ev in enumerate(evs):
                 ev["cid"] = case["cid"]
                 ev["id"] = "%s.%d" % (case["cid"], k)
